@@ -22,11 +22,14 @@ import (
 	"net/http"
 	"net/http/httptest"
 	"net/url"
+	"reflect"
+	"runtime"
 	"sort"
 	"strings"
 	"time"
 
 	"github.com/beevik/etree"
+	"github.com/gorilla/mux"
 	dsig "github.com/russellhaering/goxmldsig"
 )
 
@@ -45,6 +48,7 @@ type vrtReq struct {
 	hasBody, bodyFail  bool
 	noExtras           bool
 	host               *string
+	headers            map[string][]string
 }
 
 func vrtNewRequest(name, method, path string) *vrtReq {
@@ -109,7 +113,13 @@ func vrtReqBuild(rb *vrtReq) *http.Request {
 			params = append(params, *extra[k])
 		}
 	}
+	for k, v := range rb.headers {
+		hdr[k] = v
+	}
 	for k := range vrtCur.model {
+		if rb.headers != nil {
+			break
+		}
 		pre := rb.name + ".h."
 		if strings.HasPrefix(k, pre) && strings.HasSuffix(k, "?") && vrtBool(k) {
 			key := strings.TrimSuffix(strings.TrimPrefix(k, pre), "?")
@@ -461,6 +471,114 @@ func vrtSameURL(got, want string) bool {
 	}
 }
 
+// ---- payloads, URLs from components, explicit headers
+
+// vrtRepeat is padding of a solver-chosen length. A length beyond the
+// decompression bound is replayed with eight times the bound, so that the
+// allocation it causes is unmistakable.
+func vrtRepeat(s string, n int) string {
+	if n < 0 {
+		panic(vrtStop{"negative length"})
+	}
+	if n > vrtInflateBound {
+		n = 8 * vrtInflateBound
+	}
+	return strings.Repeat(s, n)
+}
+
+const vrtInflateBound = 32 << 20
+
+var vrtAllocMark uint64
+
+func vrtAllocStart() {
+	var ms runtime.MemStats
+	runtime.ReadMemStats(&ms)
+	vrtAllocMark = ms.TotalAlloc
+}
+
+// vrtMaterialisedWithin: natively the bytes materialised are bounded through
+// the bytes allocated since vrtAllocStart (a reader that materialises n bytes
+// allocates at least n).
+func vrtMaterialisedWithin(limit int) bool {
+	var ms runtime.MemStats
+	runtime.ReadMemStats(&ms)
+	return ms.TotalAlloc-vrtAllocMark <= uint64(limit)*5
+}
+
+func vrtMaterialisations() int { return 1 }
+
+func vrtURL(scheme, host, path, query, frag string) string {
+	u := ""
+	if scheme != "" {
+		u = scheme + ":"
+	}
+	if host != "" || scheme != "" {
+		u += "//" + host
+	}
+	u += path
+	if query != "" {
+		u += "?" + query
+	}
+	if frag != "" {
+		u += "#" + frag
+	}
+	return u
+}
+
+func vrtBadURL() string { return "%zz:not a url" }
+
+func vrtBadForwarded() string { return "host=\"unterminated" }
+
+func vrtReqHeader(rb *vrtReq, key string, vals []string) {
+	if rb.headers == nil {
+		rb.headers = map[string][]string{}
+	}
+	rb.headers[key] = vals
+}
+
+// ---- routing
+
+func vrtFuncName(h http.Handler) string {
+	if h == nil {
+		return ""
+	}
+	v := reflect.ValueOf(h)
+	if v.Kind() == reflect.Func {
+		return runtime.FuncForPC(v.Pointer()).Name()
+	}
+	return fmt.Sprintf("%T", h)
+}
+
+// vrtRouteHandler: the name of the handler function the router dispatches path to.
+func vrtRouteHandler(h http.Handler, path string) string {
+	r, ok := h.(*mux.Router)
+	if !ok {
+		panic(vrtStop{"the provider's handler is not the mux router"})
+	}
+	var m mux.RouteMatch
+	if !r.Match(&http.Request{Method: "GET", URL: &url.URL{Path: path}}, &m) || m.MatchErr != nil {
+		return ""
+	}
+	return vrtFuncName(m.Handler)
+}
+
+// vrtRoutePathOf: the path under which the handler whose name contains name is registered.
+func vrtRoutePathOf(h http.Handler, name string) (string, bool) {
+	r, ok := h.(*mux.Router)
+	if !ok {
+		panic(vrtStop{"the provider's handler is not the mux router"})
+	}
+	path, found := "", false
+	r.Walk(func(route *mux.Route, _ *mux.Router, _ []*mux.Route) error {
+		if !found && strings.Contains(vrtFuncName(route.GetHandler()), name) {
+			path, _ = route.GetPathTemplate()
+			found = true
+		}
+		return nil
+	})
+	return path, found
+}
+
 // ---- clock
 
 func vrtIsClockReading(ns int) bool {
@@ -478,6 +596,11 @@ func vrtSomeClockSatisfies(lo int, hasLo bool, hi int, hasHi bool) bool {
 		b = int64(hi) - 1
 	}
 	return a <= b
+}
+
+func vrtAllClocksSatisfy(lo int, hasLo bool, hi int, hasHi bool) bool {
+	a, b := vrtCur.start.Add(-time.Millisecond).UnixNano(), time.Now().UnixNano()
+	return (!hasLo || int64(lo) <= a) && (!hasHi || b < int64(hi))
 }
 
 // vrtTimestamp is a timestamp string chosen by the solver: either a string
